@@ -44,7 +44,7 @@ func sourceTables(stmts []parser.Statement) (tables map[string]bool, ok bool, wh
 					ok, why = false, "source uses a __subquery name"
 				}
 			case *parser.CallExpr:
-				if n.Func != nil && sqlKeywords[strings.ToUpper(n.Func.Name)] {
+				if _, builtin := gen.Builtins[n.Func.Name]; n.Func != nil && !builtin && sqlKeywords[strings.ToUpper(n.Func.Name)] {
 					ok, why = false, "pass-through function named like an SQL keyword"
 				}
 			}
